@@ -15,12 +15,12 @@
    Round 7: the WHOLE function admm (Model/NnlsAdmm.v: loop, proximal_operator call with n_const / order, stopping rule, the
    ways the call raises) -- with a number of constraints but none selected the dual variable stays zero, the stopping rule
    never fires, each iteration contracts the distance to the least-squares solution by rho / (mu + rho): end-to-end bound and
-   limit; a state reproduced by the non_negative loop body is a KKT point; the documented stand-alone call raises (refuted /
-   partial pair C13_admm_returns_refuted, C13_admm_returns_partial); a state reproduced by the l1_reg body meets the lasso
+   limit; a state reproduced by the non_negative loop body is a KKT point; the documented stand-alone call (order = None) raised: repaired by /repo a5b9e5b, the model follows
+   (C13_admm_order_none_is_zero); n_iter_max = 0 still raises (refuted / partial pair C13_admm_returns_refuted, C13_admm_returns_partial); a state reproduced by the l1_reg body meets the lasso
    conditions; fista's momentum recurrence is computed in the model (Model/NnlsMomentum.v) and is the sequence the rate theorems use;
    hals_nnls with nonzero_rows=True and epsilon > 0 is the call with nonzero_rows=False. *)
 From Coq Require Import List Arith Reals Lra QArith Qabs.
-From TLV Require Import Base.Ops Base.PyList Base.Tensor Base.RSum Model.Nnls Model.NnlsEntry Proofs.NnlsProofs Proofs.NnlsProofsDescent Proofs.NnlsProofsNz Proofs.NnlsProofsAdmm Proofs.NnlsProofsFista Proofs.NnlsProofsFista2 Proofs.NnlsProofsAset Proofs.NnlsProofsAsetCert Proofs.NnlsProofsAsetFull Proofs.NnlsProofsExamples Proofs.NnlsProofsConv Proofs.NnlsProofsStep Proofs.NnlsProofsEntry Proofs.NnlsProofsGap Proofs.NnlsProofsTol0 Proofs.NnlsProofsAsetRnd Proofs.NnlsProofsUnique Proofs.NnlsProofsLimit Proofs.NnlsProofsFistaRate Proofs.NnlsProofsEps Proofs.NnlsProofsAsetTerm Model.NnlsAdmm Proofs.NnlsProofsAdmmLoop Proofs.NnlsProofsAdmmWitness Model.NnlsMomentum Proofs.NnlsProofsMomentum Proofs.NnlsProofsNzEps.
+From TLV Require Import Base.Ops Base.PyList Base.Tensor Base.RSum Model.Nnls Model.NnlsEntry Proofs.NnlsProofs Proofs.NnlsProofsDescent Proofs.NnlsProofsNz Proofs.NnlsProofsAdmm Proofs.NnlsProofsFista Proofs.NnlsProofsFista2 Proofs.NnlsProofsAset Proofs.NnlsProofsAsetCert Proofs.NnlsProofsAsetFull Proofs.NnlsProofsExamples Proofs.NnlsProofsConv Proofs.NnlsProofsStep Proofs.NnlsProofsEntry Proofs.NnlsProofsGap Proofs.NnlsProofsTol0 Proofs.NnlsProofsAsetRnd Proofs.NnlsProofsUnique Proofs.NnlsProofsLimit Proofs.NnlsProofsFistaRate Proofs.NnlsProofsEps Proofs.NnlsProofsAsetTerm Model.NnlsAdmm Proofs.NnlsProofsAdmmLoop Proofs.NnlsProofsAdmmWitness Model.NnlsMomentum Proofs.NnlsProofsMomentum Proofs.NnlsProofsNzEps Proofs.NnlsProofsAsetFallback Proofs.NnlsProofsAsetFallbackW.
 From TLV Require Model.Prox.
 Import ListNotations.
 Open Scope R_scope.
@@ -301,33 +301,51 @@ Theorem C13_admm_norm_test_is_norm_test : forall (tol : R) (a b : list (list R))
 Proof. exact norm_lt_spec. Qed.
 Print Assumptions C13_admm_norm_test_is_norm_test.
 
-(* REFUTED: "the call returns" fails for the use the docstring recommends outside constrained_parafac (n_const = 1, a
-   constraint, `order` left at its default None): validate_constraints indexes its lists with None.  Witness executed at the
-   rational instance (third / fourth line: with order = 0, and with n_const = None, the same data return; last line: no
-   iteration leaves x_split unbound), then the general statement: every call with n_const given and order None raises. *)
+(* "The call returns".  Round 7 found that the use the docstring recommends outside constrained_parafac (n_const = 1, a constraint,
+   `order` left at its default None) raised TypeError; repaired by /repo a5b9e5b (admm reads order = None as mode 0), the model
+   follows the repaired code: C13_admm_order_none_is_zero, Example C13_admm_order_none_before_a5b9e5b (old rule, executed witness).
+   REFUTED (still open, known finding admm_zero_iterations): n_iter_max = 0 -- a value the docstring does not exclude ('Maximum
+   number of iteration') -- raises UnboundLocalError because x_split is never bound: witness + C13_admm_raises (general: no
+   iteration, or an order >= n_const). *)
 Example C13_admm_returns_refuted :
-  admm Qops aw_solve (Some 1%nat) None (KNonneg) [[4%Q]] [[2%Q]] [[0%Q]] [[0%Q]] 1 1 100 (1#10000)%Q = Err /\
-  admm Qops aw_solve (Some 1%nat) None (KNone) [[4%Q]] [[2%Q]] [[0%Q]] [[0%Q]] 1 1 100 (1#10000)%Q = Err /\
-  admm Qops aw_solve (Some 1%nat) (Some 0%nat) (KNonneg) [[4%Q]] [[2%Q]] [[0%Q]] [[0%Q]] 1 1 3 (1#10000)%Q
-    = Ok ([[7#4]], [[7#4]], [[0]])%Q /\
-  admm Qops aw_solve None None (KNone) [[4%Q]] [[2%Q]] [[0%Q]] [[0%Q]] 1 1 100 (1#10000)%Q = Ok ([[2]], [[1]], [[0]])%Q /\
-  admm Qops aw_solve None None (KNone) [[4%Q]] [[2%Q]] [[0%Q]] [[0%Q]] 1 1 0 (1#10000)%Q = Err.
-Proof. exact admm_order_none_witness. Qed.
+  admm Qops aw_solve None None (KNone) [[4%Q]] [[2%Q]] [[0%Q]] [[0%Q]] 1 1 0 (1#10000)%Q = Err /\
+  admm Qops aw_solve (Some 1%nat) (Some 0%nat) (KNonneg) [[4%Q]] [[2%Q]] [[0%Q]] [[0%Q]] 1 1 0 (1#10000)%Q = Err.
+Proof. exact admm_zero_iterations_witness. Qed.
 Theorem C13_admm_raises : forall (F : Type) (Op : fops F) (solve : list (list F) -> list (list F) -> list (list F))
   (n_const order : option nat) (k : constr) (UtM UtU x dual : list (list F)) (m r n : nat) (tol : F),
-  n = 0%nat \/ (exists nc : nat, n_const = Some nc /\ (order = None \/ (exists o : nat, order = Some o /\ (nc <= o)%nat))) ->
+  n = 0%nat \/ (exists nc : nat, n_const = Some nc /\ (nc <= order_eff order)%nat) ->
   admm Op solve n_const order k UtM UtU x dual m r n tol = Err.
 Proof. exact @admm_raises. Qed.
 Print Assumptions C13_admm_raises.
-(* PARTIAL (the restricted statement that holds): with at least one iteration and (n_const, order) accepted by
-   proximal_operator -- n_const None, or 0 <= order < n_const -- the call returns, for every data, constraint, tol, tl.solve *)
+(* PARTIAL (the restricted statement that holds; restricted only by n_iter_max >= 1): with (n_const, order) accepted by
+   proximal_operator -- n_const None, or order (None counting as 0) < n_const -- the call returns, for every data, constraint,
+   tol, tl.solve *)
 Theorem C13_admm_returns_partial : forall (F : Type) (Op : fops F) (solve : list (list F) -> list (list F) -> list (list F))
   (n_const order : option nat) (k : constr) (UtM UtU x dual : list (list F)) (m r n : nat) (tol : F),
   n <> 0%nat ->
-  n_const = None \/ (exists nc o : nat, n_const = Some nc /\ order = Some o /\ (o < nc)%nat) ->
+  n_const = None \/ (exists nc : nat, n_const = Some nc /\ (order_eff order < nc)%nat) ->
   exists t, admm Op solve n_const order k UtM UtU x dual m r n tol = Ok t.
 Proof. exact @admm_returns. Qed.
 Print Assumptions C13_admm_returns_partial.
+(* FULL (repaired code a5b9e5b): order = None IS order = 0, for every other argument; under the old rule the call raised *)
+Theorem C13_admm_order_none_is_zero : forall (F : Type) (Op : fops F) (solve : list (list F) -> list (list F) -> list (list F))
+  (n_const : option nat) (k : constr) (UtM UtU x dual : list (list F)) (m r n : nat) (tol : F),
+  admm Op solve n_const None k UtM UtU x dual m r n tol = admm Op solve n_const (Some 0%nat) k UtM UtU x dual m r n tol.
+Proof. exact @admm_order_none_is_zero. Qed.
+Print Assumptions C13_admm_order_none_is_zero.
+Theorem C13_admm_order_none_raised_before_a5b9e5b : forall (F : Type) (Op : fops F) (solve : list (list F) -> list (list F) -> list (list F))
+  (nc : nat) (k : constr) (UtM UtU x dual : list (list F)) (m r n : nat) (tol : F),
+  admm_before_a5b9e5b Op solve (Some nc) None k UtM UtU x dual m r n tol = Err.
+Proof. exact @admm_order_none_raised_before. Qed.
+Print Assumptions C13_admm_order_none_raised_before_a5b9e5b.
+Example C13_admm_order_none_before_a5b9e5b :
+  admm_before_a5b9e5b Qops aw_solve (Some 1%nat) None (KNonneg) [[4%Q]] [[2%Q]] [[0%Q]] [[0%Q]] 1 1 3 (1#10000)%Q = Err /\
+  admm Qops aw_solve (Some 1%nat) None (KNonneg) [[4%Q]] [[2%Q]] [[0%Q]] [[0%Q]] 1 1 3 (1#10000)%Q = Ok ([[7#4]], [[7#4]], [[0]])%Q /\
+  admm Qops aw_solve (Some 1%nat) (Some 0%nat) (KNonneg) [[4%Q]] [[2%Q]] [[0%Q]] [[0%Q]] 1 1 3 (1#10000)%Q
+    = Ok ([[7#4]], [[7#4]], [[0]])%Q /\
+  admm Qops aw_solve (Some 1%nat) (Some 1%nat) (KNonneg) [[4%Q]] [[2%Q]] [[0%Q]] [[0%Q]] 1 1 3 (1#10000)%Q = Err /\
+  admm Qops aw_solve None None (KNone) [[4%Q]] [[2%Q]] [[0%Q]] [[0%Q]] 1 1 100 (1#10000)%Q = Ok ([[2]], [[1]], [[0]])%Q.
+Proof. exact admm_order_none_witness. Qed.
 
 (* the n_const=None branch of the whole-function model IS admm_none: C13_admm_none_least_squares applies to the entry point *)
 Theorem C13_admm_nconst_none_is_admm_none : forall (F : Type) (Op : fops F) (solve : list (list F) -> list (list F) -> list (list F))
@@ -1242,6 +1260,54 @@ Theorem C13_active_set_nonneg :
   active_set_nnls Rops solve rnd Utm UtU tol x0 n_iter_max = Some y -> Forall (fun v => 0 <= v) y.
 Proof. exact active_set_nonneg. Qed.
 Print Assumptions C13_active_set_nonneg.
+
+(* FULL (follow-up of round 7): the `except:` path -- tl.solve raises on the passive block chosen in the try block (a singular block:
+   semidefinite UtU or a warm start).  Any tl.solve, any rounding function, any data: the iteration that takes the fallback IS the
+   first iteration of a run from the zero vector (masks all-active) in which the entering index is argmax of the STALE gradient g of
+   the discarded point, and so is the rest of the loop; when g and the gradient at zero select the same index it is literally the
+   cold-start run.  What is returned on this path: C13_active_set_nonneg (>= 0 on every exit) and C13_active_set_exit_kkt (KKT when
+   left through the termination test) already allow a raising tl.solve (its contract constrains only the answers it gives). *)
+Theorem C13_active_set_fallback_is_cold_body :
+  forall (solve : list (list R) -> list R -> option (list R)) (rnd : R -> R) (Utm : list R) (UtU : list (list R))
+         (iter0 : bool) (x g : list R) (passive active : list bool),
+  let add := negb iter0 || forallb (is0 Rops) x in
+  let p1 := if add then set_nth (argmax Rops g) true passive else passive in
+  solve_scatter Rops solve Utm UtU p1 = None ->
+  as_body Rops solve rnd Utm UtU iter0 x g passive active =
+  as_body Rops solve rnd Utm UtU true (zeros_of x) g (posmask Rops (zeros_of x)) (negmask (posmask Rops (zeros_of x))).
+Proof. exact as_body_fallback_is_cold_body. Qed.
+Print Assumptions C13_active_set_fallback_is_cold_body.
+Theorem C13_active_set_fallback_is_cold_loop :
+  forall (solve : list (list R) -> list R -> option (list R)) (rnd : R -> R) (Utm : list R) (UtU : list (list R)) (tol : R)
+         (fuel : nat) (iter0 : bool) (x g : list R) (passive active : list bool),
+  let add := negb iter0 || forallb (is0 Rops) x in
+  let p1 := if add then set_nth (argmax Rops g) true passive else passive in
+  solve_scatter Rops solve Utm UtU p1 = None ->
+  as_loop Rops solve rnd Utm UtU tol (S fuel) iter0 x g passive active =
+  as_loop Rops solve rnd Utm UtU tol (S fuel) true (zeros_of x) g (posmask Rops (zeros_of x)) (negmask (posmask Rops (zeros_of x))).
+Proof. exact as_loop_fallback_is_cold_loop. Qed.
+Print Assumptions C13_active_set_fallback_is_cold_loop.
+Theorem C13_active_set_fallback_is_cold_run :
+  forall (solve : list (list R) -> list R -> option (list R)) (rnd : R -> R) (Utm : list R) (UtU : list (list R)) (tol : R)
+         (fuel : nat) (iter0 : bool) (x g : list R) (passive active : list bool),
+  let add := negb iter0 || forallb (is0 Rops) x in
+  let p1 := if add then set_nth (argmax Rops g) true passive else passive in
+  solve_scatter Rops solve Utm UtU p1 = None ->
+  length x = length (nth 0 UtU []) ->
+  argmax Rops g = argmax Rops (gradient Rops Utm UtU (zeros_of x)) ->
+  as_loop Rops solve rnd Utm UtU tol (S fuel) iter0 x g passive active = active_set_run Rops solve rnd Utm UtU tol None (S fuel).
+Proof. exact as_loop_fallback_is_cold_run. Qed.
+Print Assumptions C13_active_set_fallback_is_cold_run.
+(* non-vacuity / reachability, executed at the rational instance with the exact elimination: UtU = [[1,2],[2,4]] (rank 1), Utm = (3,5),
+   warm start (1,1): the passive block is singular, the solve raises, the stale gradient (0,-1) selects index 0 (the gradient at zero
+   would select index 1), the run ends through the termination test at the KKT point (3,0) -- as the cold-start run does *)
+Example C13_active_set_fallback_reachable :
+  solve_scatter Qops (gauss_solve Qops) [3; 5]%Q [[1; 2]; [2; 4]]%Q [true; true] = None /\
+  gradient Qops [3; 5]%Q [[1; 2]; [2; 4]]%Q [1; 1]%Q = [0; -1]%Q /\
+  active_set_run Qops (gauss_solve Qops) (fun x => x) [3; 5]%Q [[1; 2]; [2; 4]]%Q (1 # 10000000)%Q (Some [1; 1]%Q) 100 = Some ([3; 0]%Q, true) /\
+  gradient Qops [3; 5]%Q [[1; 2]; [2; 4]]%Q [3; 0]%Q = [0; -1]%Q /\
+  active_set_run Qops (gauss_solve Qops) (fun x => x) [3; 5]%Q [[1; 2]; [2; 4]]%Q (1 # 10000000)%Q None 100 = Some ([3; 0]%Q, true).
+Proof. exact aset_fallback_witness. Qed.
 
 (* non-vacuity: the termination test is reached (flag true) from a warm and from a cold start, and a budget of one
    iteration can run out (flag false); executed at the rational instance with the exact elimination as solve *)
